@@ -4,7 +4,6 @@
 set -e
 cd "$(dirname "$0")"
 export CARGO_NET_OFFLINE=true
-cp -f /repo/Cargo.lock harness/Cargo.lock.repo 2>/dev/null || true
 ( cd harness && cargo test -q -p refla -p vkit --profile mon 2>&1 | tail -15 )
 ./check build mon rel
 # oracle-of-the-oracle self tests (dd, jets, cone predicates, refblas identities)
